@@ -119,8 +119,11 @@ Fixpoint apply_opt (o : opt) (s : store) {struct o} : store :=
 Fixpoint apply_opts (os : list opt) (s : store) : store :=
   match os with [] => s | o :: r => apply_opts r (apply_opt o s) end.
 
-(* event.New(opts...) without the "date" key (always present, a timestamp) *)
-Definition new_event (os : list opt) : store := apply_opts os [].
+(* event.New(opts...): the "date" key is stored first (a time.Time, projected to type
+   code 9), then the options are applied - so an option may overwrite it *)
+Definition K_date : key := [100;97;116;101]%N.
+Definition V_now : value := VOther 9.
+Definition new_event (os : list opt) : store := apply_opts os [(K_date, V_now)].
 
 (* which projected Go types encoding/json accepts: 0..99 serialisable
    (slices, maps with string keys, structs, errors, time.Time, bool, float, nil),
